@@ -472,8 +472,8 @@ package proxy
 // The constructor hands the cache constructors a configuration they can work with whenever
 // it was accepted by Config.verify (lock_shards >= 1, cleanup interval > 0: their
 // preconditions are obligations at the call sites), and wires the proxy to that configuration,
-// the given certificate authority and the new cache.  (That the configuration's values stay
-// set across the cache constructors is not proved: they have no frame clause yet.)  ServeHTTP - the only entry
+// the given certificate authority and the new cache: what the handlers assume about the proxy
+// they run on (specProxy) holds of the constructor's result.  ServeHTTP - the only entry
 // point net/http calls - hands each request to its handler with the handler's preconditions.
 // (net/http: the request it passes has a URL and a header map whose keys carry at least one
 // value; the ResponseWriter is fresh: nothing written, header set empty.)
@@ -486,6 +486,7 @@ package proxy
 //@   requires aset(cfg.Cache.CleanupInterval.value) && aset(cfg.Cache.MaxCacheSize.value) && aset(cfg.Cache.LockShards.value) && aset(cfg.Cache.Type.value) && aset(cfg.Cache.File.Dir.value) && aset(cfg.Cache.Memory.MemoryBudgetPercent.value)
 //@   requires aset(cfg.Proxy.RetryOnInvalidRange.value) && aset(cfg.Proxy.CachePolicy.IgnoreCacheControl.value) && aset(cfg.Proxy.CachePolicy.DefaultMaxAge.value) && aset(cfg.Proxy.CachePolicy.ForceDefaultMaxAge.value) && aset(cfg.Proxy.UpstreamDefaultHttps.value)
 //@   ensures [C16] result1 == nil ==> result0 != nil && result0.cfg == cfg && result0.ca == ca && result0.fetch.cfg == cfg && result0.fetch.cache != nil && result0.cache != nil
+//@   ensures [C16] result1 == nil ==> specProxy(result0)
 
 //@ props C16 C10
 //@ func Proxy.ServeHTTP
